@@ -36,11 +36,12 @@ TRACE_SPEC = os.path.join(tlc.SPEC_DIR, 'trace', 'Trace_Compose.tla')
 
 NONE = -1
 TOL = 2
-KNOWN_DEFECTS = ['fastpath_opacity', 'blend_alpha', 'combine_clip', 'opaque_zero', 'combine_range']
+KNOWN_DEFECTS = ['fastpath_opacity', 'blend_alpha', 'combine_clip', 'opaque_zero', 'combine_range', 'clip_bbox', 'combine_ssrs']
 HYPOTHETICAL = ['prune_any', 'no_bgcolor', 'reverse_order', 'drop_opacity', 'combine_far']
 ACTIONS = ['AddLayer', 'Submit', 'SelectSkip', 'SelectOpaque', 'SelectAdd', 'CombineDone', 'CombineFirst', 'CombineMerge',
            'CombineKeep', 'RenderDone', 'RenderBlank', 'RenderSub', 'RenderFull', 'MergeEmpty', 'MergeFast',
            'MergeComposite', 'MergePaste']
+RAISE_ACTIONS = {'combine_ssrs': 'CombineRaise', 'clip_bbox': 'MergeRaise'}
 REGION_IDS = ['in_s', 'in_m', 'in_h', 'box_s', 'box_m', 'box_h', 'out_s', 'out_m', 'out_h']
 CELL = 4            # content areas are cells of CELL x CELL map units: (cx + cy) mod 3 -> s, m, h
 CONTENTS = 'smh'
@@ -91,9 +92,9 @@ def colour(i):
     return ((53 * i + 31) % 199 + 10, (97 * i + 67) % 193 + 12, (151 * i + 113) % 197 + 8)
 
 
-def mk_source(sid, kind, op=NONE, cov='none', clip=False, url=URL1, rng='all', col=None, idx=0):
+def mk_source(sid, kind, op=NONE, cov='none', clip=False, url=URL1, rng='all', col=None, idx=0, ssrs=False):
     return {'id': sid, 'kind': kind, 'op': op, 'cov': cov, 'clip': bool(clip), 'url': url, 'rng': rng,
-            'col': list(col or colour(idx))}
+            'col': list(col or colour(idx)), 'ssrs': bool(ssrs)}
 
 
 def op_code(op):
@@ -162,6 +163,8 @@ class World(object):
                     c['coverage']['clip'] = True
             if s['rng'] == 'fine':
                 c['min_res'] = RANGE_MIN_RES
+            if s['ssrs']:
+                c['supported_srs'] = ['EPSG:3857']
             sources[s['id']] = c
         layers = []
         for n, L in self.layers.items():
@@ -212,6 +215,8 @@ def base_world(tier, cov_type='polygon'):
     add('rgba', NONE, 'none', False, suffix='v', url=URL2)
     add('opq', 0, 'none', False)
     add('rgba', 25, 'none', False)
+    add('opq', NONE, 'none', False, suffix='s', ssrs=True)
+    add('rgba', NONE, 'none', False, suffix='s', ssrs=True)
     # resolution ranges: on the source, on the layer, and on one source of a two-source layer
     add('opq', NONE, 'none', False, suffix='f', rng='fine')
     s = mk_source('o_n_xg', 'opq', idx=90)
@@ -225,12 +230,11 @@ def base_world(tier, cov_type='polygon'):
     a = mk_source('ms3a', 'key', op=50, idx=95)
     b = mk_source('ms3b', 'pal', cov='P', clip=True, idx=96)
     layers['ms3'] = {'name': 'ms3', 'srcs': [a, b], 'rng': 'none'}
-    reduced = ['o_n_x', 'o_n_x2', 'o_50_x', 'o_n_c', 'o_n_u', 'r_n_x', 'r_n_x2', 'r_50_x', 'r_n_c', 'r_50_u', 'k_n_x', 'p_n_u',
-               'o_n_xf', 'ms1']
+    reduced = ['o_n_x', 'o_n_x2', 'o_50_x', 'o_n_c', 'o_n_u', 'r_n_x', 'r_50_x', 'r_n_c', 'k_n_x', 'p_n_u', 'ms1', 'r_n_xs']
     if tier == 'thorough':
-        reduced += ['o_n_xv', 'k_50_c', 'o_0_x', 'p_n_x']
+        reduced += ['r_n_x2', 'r_50_u', 'o_n_xf', 'o_n_xv', 'k_50_c', 'o_0_x']
     if cov_type == 'bbox':
-        reduced = reduced[:10]
+        reduced = reduced[:8]
     return World('base-' + cov_type, layers, cov_type, reduced)
 
 
@@ -245,6 +249,8 @@ class Service(object):
         from mapproxy.config.loader import ProxyConfiguration
         from mapproxy.wsgiapp import MapProxyApp
         import webtest
+        import logging
+        logging.disable(logging.CRITICAL)        # the service logs every internal error with its traceback
         self.np, self.Image = np, Image
         self.world = world
         self.log = []
@@ -450,6 +456,7 @@ def tla_opt(o):
 def consts(world, opts, defects, shallow, maxstack, tol=TOL):
     return dict(Cat=world.cat(), Reduced=set(world.reduced), ShallowLen=shallow, MaxStack=maxstack,
                 Opts='={' + ', '.join(tla_opt(o) for o in opts) + '}', AllZones=set(all_zones(world)),
+                BoxCov=world.cov_type == 'bbox',
                 Defects=set(defects), Tol=tol)
 
 
@@ -544,7 +551,9 @@ def px_diff(obs_px, want):
 def judge(obs, exp):
     """-> (property_ok, binding_ok, text)"""
     if obs['status'] != 200 or not obs['px']:
-        return False, False, '; '.join(obs['notes']) or 'no picture'
+        return False, obs['status'] == exp['status'], '; '.join(obs['notes']) or 'no picture'
+    if exp['status'] != 200:
+        return not px_diff(obs['px'], exp['full']), False, 'the model of the code answers %s, the service a picture' % exp['status']
     dfull = px_diff(obs['px'], exp['full'])
     dout = px_diff(obs['px'], exp['out'])
     ups_ok = obs['ups'] == exp['ups']
@@ -564,7 +573,8 @@ def judge(obs, exp):
 
 
 NOTE_OF = {'fastpath_opacity': 'fast_faded', 'blend_alpha': 'blend', 'combine_clip': 'combine_mixed_clip',
-           'opaque_zero': 'prune_invisible', 'combine_range': 'combine_out_of_range'}
+           'opaque_zero': 'prune_invisible', 'combine_range': 'combine_out_of_range', 'clip_bbox': 'crash_clip_bbox',
+           'combine_ssrs': 'crash_combine_ssrs'}
 
 
 def describe(names, o):
@@ -578,24 +588,31 @@ def describe(names, o):
 def witnesses(world):
     z = list(all_zones(world))
     green = (0, 160, 80)
-    w = [('fastpath_opacity', ['o_50_x'], mk_opt(False, green, z, 'fine'), 'px'),
-         ('blend_alpha', ['o_n_x', 'r_50_x'], mk_opt(False, green, z, 'fine'), 'px'),
-         ('combine_clip', ['o_n_c', 'o_n_u2'], mk_opt(True, green, z, 'fine'), 'ups'),
-         ('opaque_zero', ['o_n_x', 'o_0_x'], mk_opt(True, green, z, 'fine'), 'ups'),
-         ('combine_range', ['ms1'], mk_opt(True, green, z, 'coarse'), 'ups')]
+    if world.cov_type == 'bbox':
+        w = [('clip_bbox', ['o_n_c'], mk_opt(True, green, z, 'fine'), 'status')]
+    else:
+        w = [('fastpath_opacity', ['o_50_x'], mk_opt(False, green, z, 'fine'), 'px'),
+             ('blend_alpha', ['o_n_x', 'r_50_x'], mk_opt(False, green, z, 'fine'), 'px'),
+             ('combine_clip', ['o_n_c', 'o_n_u2'], mk_opt(True, green, z, 'fine'), 'ups'),
+             ('opaque_zero', ['o_n_x', 'o_0_x'], mk_opt(True, green, z, 'fine'), 'ups'),
+             ('combine_range', ['ms1'], mk_opt(True, green, z, 'coarse'), 'ups'),
+             ('combine_ssrs', ['r_n_x', 'r_n_xs'], mk_opt(True, green, z, 'fine'), 'status')]
     return [x for x in w if all(n in world.layers for n in x[1])]
 
 
 def calibrate(ctx, world, base):
+    """-> the deviations (of those witnessed in this world) that the code under test has"""
     ws = witnesses(world)
     cases = [(n, o) for _, n, o, _ in ws]
-    tab_fixed = expected_table(ctx, 'cal-fixed', world, cases, [])
-    tab_found = expected_table(ctx, 'cal-found', world, cases, KNOWN_DEFECTS)
+    tab_fixed = expected_table(ctx, 'cal-fixed-' + world.name, world, cases, [])
+    tab_found = expected_table(ctx, 'cal-found-' + world.name, world, cases, KNOWN_DEFECTS)
     obs = run_real(world, cases, base, procs=1)
     defects = []
     for (d, names, o, field), ef, ed, ob in zip(ws, tab_fixed, tab_found, obs):
         if field == 'ups':
             as_fixed, as_found = ob['ups'] == ef['ups'], ob['ups'] == ed['ups']
+        elif field == 'status':
+            as_fixed, as_found = ob['status'] == ef['status'], ob['status'] == ed['status']
         else:
             as_fixed = bool(ob['px']) and not px_diff(ob['px'], ef['out'])
             as_found = bool(ob['px']) and not px_diff(ob['px'], ed['out'])
@@ -629,9 +646,9 @@ class Findings(object):
         self.by_cause = {}
         self.multi = []
 
-    def add(self, cause, names, o, text, kind='picture'):
+    def add(self, cause, names, o, text, kind='picture', rank=1):
         k = (kind, cause)
-        size = (len(names), len(o['zones']), o['res'] != 'fine')
+        size = (rank, len(names), len(o['zones']), o['res'] != 'fine')
         cur = self.by_cause.get(k)
         if cur is None or size < cur[0]:
             self.by_cause[k] = (size, names, o, text, (cur[4] if cur else 0) + 1)
@@ -645,47 +662,16 @@ class Findings(object):
                                {'world': self.world.to_json(), 'names': names, 'o': o, 'defects': self.defects})
 
 
-def attribute(ctx, tag, world, defects, failing, findings):
+def attribute(defects, failing, findings):
     """failing: [(names, o, exp, text)] - cases where the real answer differs from Full and equals the model of the
-    code: name the deviation(s) responsible.  One candidate note -> that deviation; several -> the smallest set
-    of repairs that makes the model satisfy the property for the case (asked from TLC)."""
-    multi = []
+    code.  The deviations responsible are those whose branch the model took for the case (notes in exp['path']);
+    a case is counted under every such deviation, cases with a single candidate are preferred as the example."""
     for names, o, exp, text in failing:
         cands = [d for d in defects if NOTE_OF[d] in exp['path']]
-        if len(cands) == 1:
-            findings.add(cands[0], names, o, text)
-        elif not cands:
+        for d in cands:
+            findings.add(d, names, o, text, rank=len(cands))
+        if not cands:
             findings.add('unattributed', names, o, text)
-        else:
-            multi.append((names, o, exp, text, cands))
-    multi.sort(key=lambda m: (len(m[0]), len(m[1]['zones'])))
-    todo = multi[:400]
-    rest = multi[400:]
-    k = 1
-    while todo and k <= len(defects):
-        nxt = []
-        variants = [c for c in itertools.combinations(defects, k)]
-        tabs = {}
-        for v in variants:
-            sel = [m for m in todo if set(v) <= set(m[4])]
-            if sel:
-                tab = expected_table(ctx, '%s-att-%s' % (tag, '-'.join(x[:6] for x in v)), world, [(m[0], m[1]) for m in sel],
-                                     [d for d in defects if d not in v])
-                for m, e in zip(sel, tab):
-                    tabs[(id(m), v)] = e['ok']
-        for m in todo:
-            hit = [v for v in variants if tabs.get((id(m), v))]
-            if hit:
-                for v in (hit if k == 1 else hit[:1]):
-                    findings.add('+'.join(v), m[0], m[1], m[3])
-            else:
-                nxt.append(m)
-        todo = nxt
-        k += 1
-    for m in todo:
-        findings.add('unattributed', m[0], m[1], m[3])
-    if rest:
-        ctx.log('%d more failing cases with several candidate causes were explained by the model but not attributed one by one' % len(rest))
 
 
 def compare_cases(ctx, tag, world, defects, cases, tab, obs, findings):
@@ -711,7 +697,7 @@ def compare_cases(ctx, tag, world, defects, cases, tab, obs, findings):
             what = 'upstream-log' if ob['ups'] != exp['ups'] else 'picture'
             findings.add('answer is the full composition but not what the model of the code says (%s)' % what, names, o, text,
                          kind='model-divergence')
-    attribute(ctx, tag, world, defects, failing, findings)
+    attribute(defects, failing, findings)
     return nbad
 
 
@@ -719,7 +705,7 @@ def compare_cases(ctx, tag, world, defects, cases, tab, obs, findings):
 # code -> spec: random worlds, recorded requests, trace validation
 # ---------------------------------------------------------------------------------------------
 def random_world(rng, k, tier):
-    cov_type = 'polygon' if rng.random() < 0.75 else 'bbox'
+    cov_type = 'polygon' if k % 4 != 3 else 'bbox'
     nsrc = rng.randint(8, 12)
     ops = [NONE, NONE, NONE, 0, 25, 50, 75, 100]
     srcs = []
@@ -728,7 +714,8 @@ def random_world(rng, k, tier):
         cov = rng.choice(['none', 'none', 'P', 'P'])
         col = (rng.randrange(0, 221), rng.randrange(0, 221), rng.randrange(0, 221))
         srcs.append(mk_source('s%d' % i, kind, rng.choice(ops), cov, cov != 'none' and rng.random() < 0.5,
-                              rng.choice([URL1, URL1, URL2]), rng.choice(['all', 'all', 'all', 'fine']), col))
+                              rng.choice([URL1, URL1, URL2]), rng.choice(['all', 'all', 'all', 'fine']), col,
+                              ssrs=rng.random() < 0.15))
     layers = {}
     pool = list(srcs)
     rng.shuffle(pool)
@@ -755,12 +742,13 @@ def random_requests(rng, world, n):
     return cases
 
 
-def validate_trace(ctx, tag, events, defects, timeout=1500):
+def validate_trace(ctx, tag, events, defects, boxcov, timeout=1500):
     d = ctx.sub('trace-' + tag)
     tf = os.path.join(d, 'batch.json')
     with open(tf, 'w') as f:
         json.dump(events, f)
-    c = dict(Cat={'unused': 0}, Reduced=set(), ShallowLen=0, MaxStack=8, Opts=set(), AllZones=set(), Defects=set(defects), Tol=TOL)
+    c = dict(Cat={'unused': 0}, Reduced=set(), ShallowLen=0, MaxStack=8, Opts=set(), AllZones=set(), BoxCov=boxcov,
+             Defects=set(defects), Tol=TOL)
     mp, cp = tlc.write_mc(d, 'Trace_Compose', 'MC_Trace', c, spec='TraceSpec', post='TraceAccepted')
     r = tlc.run(mp, cp, d, workers=1, coverage=False, env={'TRACE_FILE': tf}, timeout=timeout, heap='3g')
     acc = tlc.find_prints(r.out, 'accepted')
@@ -777,41 +765,50 @@ def validate_trace(ctx, tag, events, defects, timeout=1500):
 
 
 def trace_direction(ctx, defects, base, nworlds, nreq, findings_by_world):
-    events, meta = [], []
+    groups = {'polygon': ([], []), 'bbox': ([], [])}
     for k in range(nworlds):
         w = random_world(ctx.rng, k, ctx.tier)
         cases = random_requests(ctx.rng, w, nreq)
         obs = run_real(w, cases, base, procs=1)
+        events, meta = groups[w.cov_type]
         for (names, o), ob in zip(cases, obs):
-            ev = {'stack': [w.layers[n] for n in names], 'o': o,
-                  'obs': {'status': ob['status'], 'px': ob['px'], 'flat': ob['flat'] and not ob['notes'], 'ups': ob['ups']}}
-            events.append(ev)
+            events.append({'stack': [w.layers[n] for n in names], 'o': o,
+                           'obs': {'status': ob['status'], 'px': ob['px'], 'flat': ob['flat'] and not ob['notes'], 'ups': ob['ups']}})
             meta.append((w, names, o, ob))
-    r, accepted, obsbad, paths = validate_trace(ctx, 'random', events, defects)
-    ctx.cov['traces_validated_against_impl'] += len(events)
-    ctx.cov['states'] += r.distinct
-    ctx.cov['transitions'] += r.generated
-    nrej = 0
-    for i, (w, names, o, ob) in enumerate(meta, 1):
-        ctx.count(('trace', w.name, tuple(names), opt_key(o)))
-        f = findings_by_world.setdefault(w.name, Findings(ctx, w, defects))
-        obs_txt = '; '.join(ob['notes']) or 'picture %s' % {k: tuple(v) for k, v in sorted(ob['px'].items())[:3]}
-        if i in obsbad and i in accepted:
-            cands = [d for d in defects if NOTE_OF[d] in paths.get(i, [])]
-            f.add('+'.join(cands) if cands else 'unattributed', names, o, 'recorded request violates the property; ' + obs_txt)
-        elif i in obsbad:
-            nrej += 1
-            f.add('recorded answer differs from the full composition and from the model of the code', names, o, obs_txt)
-        elif i not in accepted:
-            nrej += 1
-            f.add('recorded answer is the full composition but not a behaviour of the model of the code', names, o,
-                  obs_txt + ' upstream %s' % [(','.join(u['ls']), u['tr'], u['sub']) for u in ob['ups']], kind='model-divergence')
-    ctx.sample({'kind': 'request recorded from a random world, validated by Trace_Compose',
-                'request': describe(meta[0][1], meta[0][2]), 'upstream': meta[0][3]['ups'],
-                'picture': {k: v for k, v in sorted(meta[0][3]['px'].items())[:3]}})
-    ctx.log('trace validation: %d recorded requests from %d random worlds, %d accepted, %d violate the property, %d rejected' % (
-        len(events), nworlds, len(accepted), len(obsbad), nrej))
-    return len(events)
+    total = 0
+    for cov_type, (events, meta) in sorted(groups.items()):
+        if not events:
+            continue
+        r, accepted, obsbad, paths = validate_trace(ctx, cov_type, events, defects, cov_type == 'bbox')
+        ctx.cov['traces_validated_against_impl'] += len(events)
+        ctx.cov['states'] += r.distinct
+        ctx.cov['transitions'] += r.generated
+        nrej = 0
+        for i, (w, names, o, ob) in enumerate(meta, 1):
+            ctx.count(('trace', w.name, tuple(names), opt_key(o)))
+            f = findings_by_world.setdefault(w.name, Findings(ctx, w, defects))
+            obs_txt = '; '.join(ob['notes']) or 'picture %s' % {k: tuple(v) for k, v in sorted(ob['px'].items())[:3]}
+            if i in obsbad and i in accepted:
+                cands = [d for d in defects if NOTE_OF[d] in paths.get(i, [])]
+                for d in cands:
+                    f.add(d, names, o, 'recorded request violates the property; ' + obs_txt, rank=len(cands))
+                if not cands:
+                    f.add('unattributed', names, o, 'recorded request violates the property; ' + obs_txt)
+            elif i in obsbad:
+                nrej += 1
+                f.add('recorded answer differs from the full composition and from the model of the code', names, o, obs_txt)
+            elif i not in accepted:
+                nrej += 1
+                f.add('recorded answer is the full composition but not a behaviour of the model of the code', names, o,
+                      obs_txt + ' upstream %s' % [(','.join(u['ls']), u['tr'], u['sub']) for u in ob['ups']], kind='model-divergence')
+        if cov_type == 'polygon':
+            ctx.sample({'kind': 'request recorded from a random world, validated by Trace_Compose',
+                        'request': describe(meta[0][1], meta[0][2]), 'upstream': meta[0][3]['ups'],
+                        'picture': {k: v for k, v in sorted(meta[0][3]['px'].items())[:3]}})
+        ctx.log('trace validation (%s worlds): %d recorded requests, %d accepted, %d violate the property, %d rejected' % (
+            cov_type, len(events), len(accepted), len(obsbad), nrej))
+        total += len(events)
+    return total
 
 
 # ---------------------------------------------------------------------------------------------
@@ -864,7 +861,7 @@ def exhaustive_world(ctx, world, defects, base, shallow, maxstack, machine_shall
     opts = opts_for(world, ctx.tier)
     findings = Findings(ctx, world, defects)
     cases = list(enumerate_cases(world, opts, shallow, maxstack))
-    # real runs start first (worker processes), TLC tables are computed meanwhile
+    # real runs start first (worker processes), the TLC runs go on meanwhile
     mpc = multiprocessing.get_context('fork')
     n = max(20, min(300, len(cases) // (procs * 6) + 1))
     chunks = [cases[i:i + n] for i in range(0, len(cases), n)]
@@ -886,7 +883,12 @@ def exhaustive_world(ctx, world, defects, base, shallow, maxstack, machine_shall
         elif not r.ok:
             raise tlc.MachineryError('Compose.tla %s: %r\n%s' % (world.name, r, r.out[-1500:]))
         else:
-            vacuity_guard(world.name, r, ACTIONS)
+            need = list(ACTIONS)
+            if 'combine_ssrs' in defects and world.cov_type == 'polygon':
+                need.append('CombineRaise')
+            if 'clip_bbox' in defects and world.cov_type == 'bbox':
+                need.append('MergeRaise')
+            vacuity_guard(world.name, r, need)
             ctx.add_tlc('Compose/' + world.name, r)
         tab = tables_parallel(ctx, world.name, world, cases, defects)
         obs = [x for ch in pending.get(3000) for x in ch]
@@ -897,10 +899,10 @@ def exhaustive_world(ctx, world, defects, base, shallow, maxstack, machine_shall
     ctx.cov['replayed_steps'] += sum(len(t['ups']) + len(c[0]) + 2 for c, t in zip(cases, tab))
     model_bad = sum(1 for t in tab if not t['ok'])
     nbad = compare_cases(ctx, world.name, world, defects, cases, tab, obs, findings)
-    ctx.log('%s: %d cases requested from the real service; model of the code violates the property in %d, real answers '
+    ctx.log('%s: %d cases requested from the real service; the model of the code violates the property in %d, real answers '
             'deviate (from Full or from the model) in %d' % (world.name, len(cases), model_bad, nbad))
     for c, t, ob in zip(cases, tab, obs):
-        if 'combine' in t['path'] and 'prune' in t['path']:
+        if 'combine' in t['path'] and 'prune' in t['path'] and t['ok']:
             ctx.sample({'kind': 'TLC case executed on the real WMS service', 'request': describe(*c), 'model path': t['path'],
                         'upstream (model = real)': t['ups'], 'picture (model)': {k: v for k, v in sorted(t['out'].items())[:3]},
                         'picture (real)': {k: v for k, v in sorted(ob['px'].items())[:3]}})
@@ -913,10 +915,11 @@ def sensitivity_of_model(ctx, world):
     """each hypothetical deviation makes PictureOK fail on the model (the invariant is not vacuous)"""
     z = all_zones(world)
     opts = [mk_opt(True, (255, 255, 255), z, 'fine'), mk_opt(False, (0, 160, 80), z, 'fine'), mk_opt(False, (0, 160, 80), ('in',), 'fine')]
+    small = World('hyp', world.layers, world.cov_type, ['o_n_x', 'o_50_x', 'o_n_c', 'r_n_x', 'r_n_x2', 'r_50_x'])
     from concurrent.futures import ThreadPoolExecutor
 
     def one(d):
-        return d, check_model(ctx, 'hyp-' + d, world, opts, [d], 1, 3, invariants=['PictureOK'], workers=2, timeout=600)
+        return d, check_model(ctx, 'hyp-' + d, small, opts, [d], 0, 3, invariants=['PictureOK'], workers=2, timeout=600)
     with ThreadPoolExecutor(len(HYPOTHETICAL)) as ex:
         for d, r in ex.map(one, HYPOTHETICAL):
             if r.violated != 'PictureOK':
@@ -930,29 +933,26 @@ def run(ctx):
     procs = 12 if thorough else 8
     check_arithmetic(ctx)
     world = base_world(ctx.tier)
+    wb = base_world(ctx.tier, 'bbox')
     check_geometry(world)
-    defects = calibrate(ctx, world, base)
+    check_geometry(wb)
+    defects = calibrate(ctx, world, base) + calibrate(ctx, wb, base)
     ctx.log('deviations of the code under test from the repaired model (calibrated on witness requests): %s' % (defects or 'none'))
 
     # RunOK: the pure step functions (tables, trace spec) and the actions are one transcription; hypothetical deviations
-    small_opts = opts_for(world, 'quick')[:6]
-    r = check_model(ctx, 'runok', world, small_opts, defects, 1, 2, invariants=['TypeOK', 'RunOK'], workers=4)
+    small = World('runok', world.layers, world.cov_type, world.reduced[:8])
+    r = check_model(ctx, 'runok', small, opts_for(world, 'quick')[:8], defects, 1, 2, invariants=['TypeOK', 'RunOK'], workers=4)
     if not r.ok:
         raise tlc.MachineryError('Compose.tla RunOK: %r\n%s' % (r, r.out[-1500:]))
     ctx.add_tlc('Compose/RunOK', r)
     sensitivity_of_model(ctx, world)
 
-    n = 0
     if thorough:
-        n += exhaustive_world(ctx, world, defects, base, 2, 4, 2, 4, procs)
-        wb = base_world(ctx.tier, 'bbox')
-        check_geometry(wb)
-        n += exhaustive_world(ctx, wb, defects, base, 2, 3, 2, 3, procs)
+        exhaustive_world(ctx, world, defects, base, 2, 4, 2, 4, procs)
+        exhaustive_world(ctx, wb, defects, base, 2, 3, 2, 3, procs)
     else:
-        n += exhaustive_world(ctx, world, defects, base, 2, 3, 1, 3, procs)
-        wb = base_world(ctx.tier, 'bbox')
-        check_geometry(wb)
-        n += exhaustive_world(ctx, wb, defects, base, 1, 2, 1, 2, procs)
+        exhaustive_world(ctx, world, defects, base, 2, 3, 1, 3, procs)
+        exhaustive_world(ctx, wb, defects, base, 1, 2, 1, 2, procs)
 
     fbw = {}
     trace_direction(ctx, defects, base, 12 if thorough else 4, 400 if thorough else 150, fbw)
@@ -967,7 +967,7 @@ def run(ctx):
         'colour tolerance is %d/255 for opaque pixels and scaled by 255/alpha for translucent ones (8-bit alpha rounding)' % TOL,
         'the synthetic upstream composes several LAYERS bottom-to-top over a transparent or white background',
         'authorisation (limited_to clipping, pruning before authorisation) belongs to C10; no attribution / error images',
-        'sources share SRS, format and supported_srs; reprojection and resampling are not part of this check',
+        'sources share SRS and format; reprojection and resampling are not part of this check',
     ]
     return ctx.finish('model_checking',
                       'TLC: Compose.tla exhaustively over the catalogue stacks x request options; distinct = distinct (world, '
